@@ -65,6 +65,7 @@ type history struct {
 	Index int    `json:"index"`
 	Steps []step `json:"steps"`
 	Kind  string `json:"drop_kind"`
+	Young bool   `json:"young_series,omitempty"` // the dropped series was first written right before the drop
 }
 
 func lp(pts []model.Point) []string {
@@ -77,7 +78,7 @@ func lp(pts []model.Point) []string {
 
 func genHistory(r *rand.Rand, idx int, kind string, nbuild int, crash bool) *history {
 	h := &history{Index: idx, Kind: kind}
-	u := kit.NewUniverse(2, 5, 8)
+	u := kit.NewUniverse(2, 5, 14)
 	add := func(st step) {
 		st.Points = lp(st.pts)
 		h.Steps = append(h.Steps, st)
@@ -86,8 +87,35 @@ func genHistory(r *rand.Rand, idx int, kind string, nbuild int, crash bool) *his
 	if kind == "rp" {
 		rps = []string{"autogen", "rp1"}
 	}
+	// every (rp, measurement, series, timestamp) is written at most once while it is live
+	// and always as a full row: overwrites, partial rows and their effect on statistics
+	// push-down are the subject of C02/C09, not of this property
+	used := map[string]bool{}
+	key := func(rp string, p model.Point) string {
+		return rp + "|" + p.Mst + "|" + model.SeriesKey(p.Tags) + "|" + strconv.FormatInt(p.T, 10)
+	}
+	fresh := func(rp string, n int) []model.Point {
+		var pts []model.Point
+		for tries := 0; len(pts) < n && tries < 40*n; tries++ {
+			p := model.Point{Mst: u.Msts[r.IntN(len(u.Msts))], Tags: u.Series[r.IntN(len(u.Series))], T: u.Times[1+r.IntN(len(u.Times)-1)]}
+			if used[key(rp, p)] {
+				continue
+			}
+			used[key(rp, p)] = true
+			p.Fields = map[string]model.Value{}
+			for _, f := range u.Fields {
+				p.Fields[f.Name] = kit.Value(r, f.Kind)
+			}
+			pts = append(pts, p)
+		}
+		return pts
+	}
 	for _, rp := range rps {
-		add(step{Op: "write", RP: rp, pts: u.SeedBatch(r, nil)})
+		sb := u.SeedBatch(r, nil)
+		for _, p := range sb {
+			used[key(rp, p)] = true
+		}
+		add(step{Op: "write", RP: rp, pts: sb})
 	}
 	build := func(n int) {
 		for i := 0; i < n; i++ {
@@ -95,7 +123,9 @@ func genHistory(r *rand.Rand, idx int, kind string, nbuild int, crash bool) *his
 			rp := rps[r.IntN(len(rps))]
 			switch {
 			case x < 55:
-				add(step{Op: "write", RP: rp, pts: u.GenBatch(r, kit.BatchOpts{MaxPoints: 6, FullRowProb: 0.4, DupInBatch: 0.1})})
+				if pts := fresh(rp, 1+r.IntN(6)); len(pts) > 0 {
+					add(step{Op: "write", RP: rp, pts: pts})
+				}
 			case x < 75:
 				add(step{Op: "flush"})
 			case x < 82:
@@ -109,7 +139,12 @@ func genHistory(r *rand.Rand, idx int, kind string, nbuild int, crash bool) *his
 				var pts []model.Point
 				for _, m := range u.Msts {
 					for _, se := range u.Series {
-						pts = append(pts, model.Point{Mst: m, Tags: se, T: nt, Fields: map[string]model.Value{"fi": kit.Value(r, 'i'), "ff": kit.Value(r, 'f')}})
+						p := model.Point{Mst: m, Tags: se, T: nt, Fields: map[string]model.Value{}}
+						for _, f := range u.Fields {
+							p.Fields[f.Name] = kit.Value(r, f.Kind)
+						}
+						used[key(rp, p)] = true
+						pts = append(pts, p)
 					}
 				}
 				add(step{Op: "write", RP: rp, pts: pts})
@@ -120,46 +155,84 @@ func genHistory(r *rand.Rand, idx int, kind string, nbuild int, crash bool) *his
 	build(nbuild)
 	// the drop
 	d := &dropSpec{Kind: kind}
-	switch kind {
-	case "series":
+	if kind == "series-young" {
+		// a series whose first write was acknowledged immediately before the drop
+		d.Kind = "series"
+		h.Kind = "series"
+		h.Young = true
 		d.Mst = u.Msts[r.IntN(len(u.Msts))]
-		if r.IntN(4) == 0 {
-			d.Mst = "" // DROP SERIES WHERE ... over all measurements
+		young := map[string]string{"host": "n", "region": "x"}
+		var pts []model.Point
+		for i := 0; i < 3; i++ {
+			p := model.Point{Mst: d.Mst, Tags: young, T: u.Times[1+i], Fields: map[string]model.Value{}}
+			for _, f := range u.Fields {
+				p.Fields[f.Name] = kit.Value(r, f.Kind)
+			}
+			pts = append(pts, p)
 		}
-		hosts := []string{"a", "b", "c", "d", "e"}
-		switch r.IntN(7) {
-		case 0: // selects none
-			d.Key, d.Op, d.Val = "host", "=", "zz"
-		case 1: // selects all
-			d.Key, d.Op, d.Val = "host", "!=", "zz"
-		case 2:
-			d.Key, d.Op, d.Val = "host", "=", hosts[r.IntN(len(hosts))]
-		case 3:
-			d.Key, d.Op, d.Val = "region", "=", []string{"x", "y"}[r.IntN(2)]
-		case 4:
-			d.Key, d.Op, d.Val = "host", "=~", "^("+hosts[r.IntN(3)]+"|"+hosts[2+r.IntN(3)]+")$"
-		case 5:
-			d.Key, d.Op, d.Val = "host", "!=", hosts[r.IntN(len(hosts))]
-		default:
-			d.Key, d.Op, d.Val = "host", "!~", "^("+hosts[r.IntN(len(hosts))]+")$"
+		add(step{Op: "write", RP: "autogen", pts: pts})
+		d.Key, d.Op, d.Val = "host", "=", "n"
+		d.Pred = "host = 'n'"
+		add(step{Op: "drop", Drop: d, Stmt: "DROP SERIES FROM " + d.Mst + " WHERE host = 'n'"})
+		add(step{Op: "pause"})
+		kind = "series"
+	} else {
+		switch kind {
+		case "series":
+			d.Mst = u.Msts[r.IntN(len(u.Msts))]
+			hosts := []string{"a", "b", "c", "d", "e"}
+			switch r.IntN(7) {
+			case 0: // selects none
+				d.Key, d.Op, d.Val = "host", "=", "zz"
+			case 1: // selects all
+				d.Key, d.Op, d.Val = "host", "!=", "zz"
+			case 2:
+				d.Key, d.Op, d.Val = "host", "=", hosts[r.IntN(len(hosts))]
+			case 3:
+				d.Key, d.Op, d.Val = "region", "=", []string{"x", "y"}[r.IntN(2)]
+			case 4:
+				d.Key, d.Op, d.Val = "host", "=~", "^("+hosts[r.IntN(3)]+"|"+hosts[2+r.IntN(3)]+")$"
+			case 5:
+				d.Key, d.Op, d.Val = "host", "!=", hosts[r.IntN(len(hosts))]
+			default:
+				d.Key, d.Op, d.Val = "host", "!~", "^("+hosts[r.IntN(len(hosts))]+")$"
+			}
+			lit := "'" + d.Val + "'"
+			if d.Op == "=~" || d.Op == "!~" {
+				lit = "/" + d.Val + "/"
+			}
+			d.Pred = fmt.Sprintf("%s %s %s", d.Key, d.Op, lit)
+			stmt := "DROP SERIES"
+			if d.Mst != "" {
+				stmt += " FROM " + d.Mst
+			}
+			add(step{Op: "drop", Drop: d, Stmt: stmt + " WHERE " + d.Pred})
+		case "measurement":
+			d.Mst = u.Msts[r.IntN(len(u.Msts))]
+			add(step{Op: "drop", Drop: d, Stmt: "DROP MEASUREMENT " + d.Mst})
+		case "rp":
+			add(step{Op: "drop", Drop: d, Stmt: "DROP RETENTION POLICY rp1 ON " + db})
+		case "database":
+			add(step{Op: "drop", Drop: d, Stmt: "DROP DATABASE " + db})
 		}
-		lit := "'" + d.Val + "'"
-		if d.Op == "=~" || d.Op == "!~" {
-			lit = "/" + d.Val + "/"
+	}
+	// keys of dropped data are free again: later writes deliberately reuse them
+	for k := range used {
+		parts := strings.Split(k, "|")
+		gone := false
+		switch kind {
+		case "series":
+			gone = (d.Mst == "" || d.Mst == parts[1]) && d.matches(parseSeries(parts[2]))
+		case "measurement":
+			gone = parts[1] == d.Mst
+		case "rp":
+			gone = parts[0] == "rp1"
+		case "database":
+			gone = true
 		}
-		d.Pred = fmt.Sprintf("%s %s %s", d.Key, d.Op, lit)
-		stmt := "DROP SERIES"
-		if d.Mst != "" {
-			stmt += " FROM " + d.Mst
+		if gone {
+			delete(used, k)
 		}
-		add(step{Op: "drop", Drop: d, Stmt: stmt + " WHERE " + d.Pred})
-	case "measurement":
-		d.Mst = u.Msts[r.IntN(len(u.Msts))]
-		add(step{Op: "drop", Drop: d, Stmt: "DROP MEASUREMENT " + d.Mst})
-	case "rp":
-		add(step{Op: "drop", Drop: d, Stmt: "DROP RETENTION POLICY rp1 ON " + db})
-	case "database":
-		add(step{Op: "drop", Drop: d, Stmt: "DROP DATABASE " + db})
 	}
 	add(step{Op: "check"})
 	if crash {
@@ -171,7 +244,9 @@ func genHistory(r *rand.Rand, idx int, kind string, nbuild int, crash bool) *his
 	}
 	// further writes: to dropped series / re-created names too
 	for i := 0; i < 3+r.IntN(4); i++ {
-		add(step{Op: "write", RP: "autogen", pts: u.GenBatch(r, kit.BatchOpts{MaxPoints: 6, FullRowProb: 0.5})})
+		if pts := fresh("autogen", 2+r.IntN(6)); len(pts) > 0 {
+			add(step{Op: "write", RP: "autogen", pts: pts})
+		}
 	}
 	add(step{Op: "settle"})
 	add(step{Op: "flush"})
@@ -184,7 +259,8 @@ func genHistory(r *rand.Rand, idx int, kind string, nbuild int, crash bool) *his
 
 // world: one model per retention policy.
 type world struct {
-	rp map[string]*model.Model
+	rp      map[string]*model.Model
+	mstGone map[string]bool // measurement dropped (by name, or with its database) and not written since
 }
 
 func (w *world) get(rp string) *model.Model {
@@ -207,10 +283,14 @@ func (w *world) applyDrop(d *dropSpec) {
 		for _, m := range w.rp {
 			m.DropMeasurement(d.Mst)
 		}
+		w.mstGone[d.Mst] = true
 	case "rp":
 		delete(w.rp, "rp1")
 	case "database":
 		w.rp = map[string]*model.Model{}
+		for _, m := range allMsts {
+			w.mstGone[m] = true
+		}
 	}
 }
 
@@ -241,7 +321,7 @@ func isMissing(err error) bool {
 		return false
 	}
 	e := err.Error()
-	return strings.Contains(e, "not found") || strings.Contains(e, "database not found") || strings.Contains(e, "retention policy not found")
+	return strings.Contains(e, "not found") || strings.Contains(e, "is being delete")
 }
 
 // shape: a read and the way to compute its expected answer from the model.
@@ -513,8 +593,11 @@ func (rn *runner) evalShapes(s *proc.Server, w *world, rpName string, r *rand.Ra
 				if len(wantHosts[mst]) > 0 && !got[mst] {
 					d = append(d, "SHOW TAG KEYS misses measurement "+mst)
 				}
-				if len(wantHosts[mst]) == 0 && got[mst] {
-					d = append(d, "SHOW TAG KEYS lists tag keys of emptied measurement "+mst)
+				// tag keys are schema of the measurement: DROP SERIES removes series, not the
+				// measurement, so keys of a measurement whose series were all dropped may still be
+				// listed; only a dropped measurement / policy / database must stop listing them
+				if len(wantHosts[mst]) == 0 && got[mst] && w.mstGone[mst] {
+					d = append(d, "SHOW TAG KEYS lists tag keys of dropped measurement "+mst)
 				}
 			}
 			out = append(out, shapeResult{name: "show-tag-keys", diff: d})
@@ -548,20 +631,29 @@ func (rn *runner) run(h *history, worker int) {
 	r := c.Rand(uint64(7000 + h.Index))
 	dir := filepath.Join(c.Scratch, fmt.Sprintf("h%d", h.Index))
 	defer os.RemoveAll(dir)
-	s := proc.New(proc.Config{Bin: rn.bin, Dir: dir, IP: proc.IP(13, worker), FS: true, FSMatch: "/data/",
+	s := proc.New(proc.Config{BGOff: true, Bin: rn.bin, Dir: dir, IP: proc.IP(13, worker), FS: true, FSMatch: "/data/",
 		Extra: map[string][]string{"data": {`write-cold-duration = "1h"`}}})
 	if err := s.Start(); err != nil {
 		c.Broken("start: %v", err)
 		return
 	}
 	defer s.Kill()
-	if err := s.WaitReady(90 * time.Second); err != nil {
+	if err := s.WaitReady(180 * time.Second); err != nil {
 		c.Broken("history %d: %v", h.Index, err)
 		return
 	}
 	setup := func() bool {
-		if _, err := s.Query("", "CREATE DATABASE "+db, nil); err != nil {
-			c.Broken("create database: %v", err)
+		var err error
+		for attempt := 0; attempt < 120; attempt++ {
+			// a database that is still being deleted cannot be re-created yet
+			if _, err = s.Query("", "CREATE DATABASE "+db, nil); err == nil || !strings.Contains(err.Error(), "is being delete") {
+				break
+			}
+			time.Sleep(250 * time.Millisecond)
+		}
+		if err != nil {
+			c.Inconclusive("create-database-refused", 1)
+			fmt.Printf("INCONCLUSIVE C13 create database: %v\n", err)
 			return false
 		}
 		if h.Kind == "rp" {
@@ -576,12 +668,12 @@ func (rn *runner) run(h *history, worker int) {
 		return
 	}
 	disableBackground(s)
-	w := &world{rp: map[string]*model.Model{}}
+	w := &world{rp: map[string]*model.Model{}, mstGone: map[string]bool{}}
 	dropped := false
 	moment := "before-drop"
 	var pendingNew []model.Point
 	wit := func(i int, extra map[string]any) map[string]any {
-		x := map[string]any{"history": history{Index: h.Index, Kind: h.Kind, Steps: h.Steps[:i+1]}}
+		x := map[string]any{"history": history{Index: h.Index, Kind: h.Kind, Young: h.Young, Steps: h.Steps[:i+1]}}
 		for k, v := range extra {
 			x[k] = v
 		}
@@ -612,6 +704,9 @@ func (rn *runner) run(h *history, worker int) {
 				return
 			}
 			w.get(st.RP).Apply(st.pts)
+			for _, p := range st.pts {
+				delete(w.mstGone, p.Mst)
+			}
 			if i < 2 || dropped {
 				pendingNew = append(pendingNew, st.pts...)
 			}
@@ -622,6 +717,9 @@ func (rn *runner) run(h *history, worker int) {
 				}
 				pendingNew = nil
 			}
+		case "pause":
+			// give a not-yet-indexed series the time to surface (visibility lag) before judging
+			time.Sleep(3 * time.Second)
 		case "settle":
 			// series re-created after the drop become visible with the usual lag
 			if err := waitVisible(s, "autogen", pendingNew); err != nil {
@@ -723,6 +821,9 @@ func (rn *runner) run(h *history, worker int) {
 							cls = "dropped-data-still-returned"
 						} else if strings.Contains(sr.diff[0], "missing row") || strings.Contains(sr.diff[0], "misses") {
 							cls = "surviving-data-missing"
+						}
+						if h.Young && cls == "dropped-data-still-returned" {
+							cls += "|series-first-written-right-before-the-drop"
 						}
 						c.Violation(fmt.Sprintf("drop-%s|%s|shape=%s", h.Kind, cls, sr.name),
 							fmt.Sprintf("history %d, %s, %s (rp %s): %s", h.Index, dropStmt(h), moment, rp, strings.Join(sr.diff, "; ")),
@@ -866,7 +967,7 @@ func main() {
 		c.Nontrivial("replay-b")
 		c.Finish()
 	}
-	kinds := []string{"series", "series", "series", "measurement", "rp", "database"}
+	kinds := []string{"series", "series", "series-young", "measurement", "rp", "database", "series"}
 	n := c.Pick(12, 80)
 	par := 8
 	sem := make(chan int, par)
